@@ -44,7 +44,8 @@ class IterTracer:
             rank = parallel.COMM.Get_rank()
             k = tracer.count.get(rank, 0)
             tracer.count[rank] = k + 1
-            rec = dict(calls="", nyield=0, outcome=None, ntasks=None, kwargs=sorted(kwargs))
+            rec = dict(calls="", nyield=0, outcome=None, ntasks=None, kwargs=sorted(kwargs),
+                       mw=kwargs.get("max_workers"), node_only=bool(kwargs.get("rank0_node_only", False)))
             tracer.eps.setdefault(k, {})[rank] = rec
             if rank == 0:
                 iterable = list(iterable)
@@ -162,11 +163,15 @@ def main():
             res = run_dispatch(MPI, parallel, size, j, timeout)
         elif kind == "create":
             res = run_stage(MPI, size, j, timeout,
-                            lambda rank, j=j: cc.stage_create(j["spec"], j["cache"], j["max_workers"], j.get("which", "data")))
+                            lambda rank, j=j: cc.stage_create(j["spec"], j["cache"], j["max_workers"], j.get("which", "data"),
+                                                              j.get("opts")))
         elif kind == "rest":
+            at = {}
             res = run_stage(MPI, size, j, timeout,
-                            lambda rank, j=j: cc.stage_rest(j["spec"], j["caches"], j["outdir"], j["max_workers"],
-                                                            rank == 0, j.get("ops")))
+                            lambda rank, j=j, at=at: cc.stage_rest(j["spec"], j["caches"], j["outdir"], j["max_workers"],
+                                                                   rank == 0, j.get("ops"), j.get("opts"),
+                                                                   mark=lambda op: at.__setitem__(str(rank), op)))
+            res["runs"][0]["at"] = dict(at)      # the operation every rank was in when the run ended
         elif kind == "refusal":
             res = run_refusal(MPI, size, j, timeout, cc, tracer)
         elif kind == "selftest":
@@ -204,8 +209,46 @@ def pack(run, keep_log=True, all_ranks=False):
     return out
 
 
+# how the caller of iter_unordered uses the iterator.  The library's own callers: a dict comprehension
+# (load_patches), deque(maxlen=0) (build_trees), a for loop (count_pairs, HistData.from_catalog) - each of them
+# around utils.logging.Indicator(iterator, number of items) when progress=True.  All of these EXHAUST the iterator.
+CONSUMERS = ("list", "for", "dict", "deque", "enumerate", "gen", "chain", "indicator", "indicator-nolen", "indicator-for")
+
+
+def wrap_consumer(it, consumer, nitems, sink):
+    """the iterable the caller loops over (exhausting consumers); sink collects what the caller sees"""
+    import itertools
+    from collections import deque
+    if consumer in ("indicator", "indicator-for", "indicator-nolen"):
+        from yaw.utils.logging import Indicator
+        it = Indicator(it, nitems) if consumer != "indicator-nolen" else Indicator(it)
+    elif consumer == "enumerate":
+        it = (x for _, x in enumerate(it))
+    elif consumer == "chain":
+        it = itertools.chain(it, ())
+    elif consumer in ("gen", "deque"):
+        def passthrough(src=it):
+            for x in src:
+                yield x
+        it = passthrough()
+    if consumer == "deque":
+        def tee(src=it):
+            for x in src:
+                sink.append(x)
+                yield x
+        deque(tee(), maxlen=0)
+        return ()
+    if consumer == "dict":
+        return list({x: None for x in it})
+    if consumer in ("list", "indicator"):
+        return list(it)
+    return it
+
+
 def run_dispatch(MPI, parallel, size, j, timeout):
     tasks = list(j["tasks"])
+    consumer = j.get("consumer") or ("for" if j.get("bad") is not None else "list")   # failing jobs: what was yielded before counts
+    stop = j.get("stop")          # the consumer asks for at most this many items (itertools.islice / break)
     mw = j.get("max_workers")
     node_only = bool(j.get("node_only"))
     sched0 = dict(j.get("sched") or {})
@@ -223,13 +266,26 @@ def run_dispatch(MPI, parallel, size, j, timeout):
             return 3 * t + 1
 
         def fn(rank):
+            import itertools
             it = parallel.iter_unordered(f, iter(list(tasks)), max_workers=mw, rank0_node_only=node_only)
+            if stop is not None:
+                if consumer == "break":
+                    got = []
+                    for x in it:
+                        got.append(x)
+                        if len(got) >= stop:
+                            break
+                    return got
+                return list(itertools.islice(it, stop))
             if bad is None:
-                return list(it)
+                got = []
+                for x in wrap_consumer(it, consumer, len(tasks), got):
+                    got.append(x)
+                return got
             # failing-job scenario: what the iterator yielded before it ended, and how it ended, per rank
             got = []
             try:
-                for x in it:
+                for x in wrap_consumer(it, consumer, len(tasks), got):
                     got.append(x)
             except JobError as err:
                 return {"got": got, "raised": ["JobError", err.args[0] if err.args else None]}
@@ -260,7 +316,8 @@ def run_dispatch(MPI, parallel, size, j, timeout):
             i = len(chosen) - 1
             while i >= 0 and chosen[i] + 1 >= ncand[i]:
                 i -= 1
-            if i < 0 or p["outcome"] != "ok":
+            if i < 0 or (p["outcome"] != "ok" and not (stop is not None and p["outcome"] == "deadlock" and not p["stuck"])):
+                # (a consumer that stops early deadlocks the world by design: go on with the next sequence)
                 complete = i < 0
                 break
             prefix = chosen[:i] + [chosen[i] + 1]
@@ -300,7 +357,7 @@ def run_refusal(MPI, size, j, timeout, cc, tracer=None):
     """a refused request + barrier + valid follow-up operation on every rank of one world"""
     first = {}
     body = lambda rank: cc.stage_refusal(j["cls"], j["spec"], j["env"], j["par"], j["max_workers"], rank, first,
-                                         j["follow"])
+                                         j["follow"], j.get("opts"))
     trace = bool(j.get("trace")) and tracer is not None
     if trace:
         tracer.reset()
